@@ -278,8 +278,10 @@ def run(ctx):
     fmod = repo.module('wpull.warc.format')
     rxs = [RX.rx_from_call(repo, fmod, c) for c in U.calls(gh.node)]
     rxs = [r for r in rxs if r is not None]
-    if not rxs:
-        raise AnalysisError('no constant regex in WARCRecord.get_http_header')
+    if not rxs and not _block_separators(repo, fmod, gh):
+        raise AnalysisError('WARCRecord.get_http_header: neither a constant regex nor a constant separator finds the header end')
+    for sep, c in ([] if rxs else _block_separators(repo, fmod, gh)):
+        ck.ok('C07-D3', gh.qual, 'header end found by the constant separator %r (first occurrence, any number of lines)' % (sep,))
     for rx in rxs:
         # a repeated single-character item that can match "\n" must exist before the blank-line terminator
         can = False
@@ -535,6 +537,21 @@ def _fold_on(e, var, val):
     raise _NoFold()
 
 
+def _block_separators(repo, fmod, gh):
+    """[(separator bytes, call)]: calls in get_http_header that look for a constant separator spanning a blank line
+    (`data.partition(b'\\r\\n\\r\\n')`, split / find / index alike)."""
+    out = []
+    for c in U.calls(gh.node):
+        if U.attr_name(c) in ('partition', 'split', 'find', 'index') and c.args:
+            try:
+                sep = repo.fold(fmod, c.args[0])
+            except (ValueError, TypeError):
+                continue
+            if isinstance(sep, bytes) and sep.count(b'\n') >= 2:
+                out.append((sep, c))
+    return out
+
+
 def _d6_header_lines(ctx):
     repo, ck = ctx.repo, ctx.check
     gh = repo.func('wpull.warc.format:WARCRecord.get_http_header')
@@ -549,6 +566,10 @@ def _d6_header_lines(ctx):
                 bare_lf = True
         if not any(op is C.LITERAL and av == 13 for op, av in items):
             bare_lf = True
+    seps = [] if rxs else _block_separators(repo, fmod, gh)
+    if seps:
+        # one constant separator accepts one spelling of the blank line only
+        bare_lf = False
     # the HTTP reader ends a header line, and the header block, at a bare LF as well as at CRLF: so must the pattern that finds
     # the block again in the archived bytes
     rr = repo.func('wpull.protocol.http.stream:Stream.read_response')
@@ -565,9 +586,9 @@ def _d6_header_lines(ctx):
         ck.expect(bare_lf, 'C07-D6', gh.qual, 'the header-block pattern accepts bare LF line ends (the HTTP reader does)',
                   'the HTTP reader accepts a header block whose lines end in a bare LF, the pattern that cuts the block out of the archived '
                   'record demands CRLF: for such a response status and MIME are lost, or taken from the body if it contains CRLF CRLF',
-                  gh.loc(rxs[0].call) if rxs else gh.loc())
+                  gh.loc(rxs[0].call) if rxs else (gh.loc(seps[0][1]) if seps else gh.loc()))
     # the cut of the first line
-    cuts = [c for c in U.calls(gh.node) if U.attr_name(c) in ('partition', 'split') and c.args]
+    cuts = [c for c in U.calls(gh.node) if U.attr_name(c) in ('partition', 'split') and c.args and not any(c is c2 for _, c2 in seps)]
     okc = bool(cuts)
     for c in cuts:
         try:
